@@ -768,6 +768,19 @@ func (d *DataChannel) collectStats(collector *statsReportCollector) {
 	collector.Collect(stats.ID, stats)
 }
 
+// setReadyState moves the ready state forward along
+// connecting -> open -> closing -> closed. The state is written by Close, the
+// open handshake, the read loop and PeerConnection.Close concurrently: a
+// transition that would go backwards (open after closed, closing after
+// closed) comes from the slower of two racing callers and is ignored.
 func (d *DataChannel) setReadyState(r DataChannelState) {
-	d.readyState.Store(r)
+	for {
+		current := d.readyState.Load()
+		if state, ok := current.(DataChannelState); ok && state >= r {
+			return
+		}
+		if d.readyState.CompareAndSwap(current, r) {
+			return
+		}
+	}
 }
